@@ -39,7 +39,7 @@ func main() {
 		}
 	}
 	if *manifest {
-		writeManifest()
+		writeManifest(*verif)
 		return
 	}
 	if *warm {
@@ -258,7 +258,7 @@ func sortStrings(s []string) {
 	}
 }
 
-func writeManifest() {
+func writeManifest(verifDir string) {
 	type lvl struct {
 		Category  string `json:"category"`
 		Text      string `json:"text"`
@@ -278,6 +278,22 @@ func writeManifest() {
 	var out []chk
 	for _, p := range props.All() {
 		m := p.Meta
+		// the rules actually evaluated, from the evidence of the last run (keeps the claim in step with the checker)
+		if raw, err := os.ReadFile(filepath.Join(verifDir, "evidence", m.ID+".json")); err == nil {
+			var ev struct {
+				Coverage struct {
+					ByRule map[string]int `json:"obligations_by_rule"`
+				} `json:"coverage"`
+			}
+			if json.Unmarshal(raw, &ev) == nil && len(ev.Coverage.ByRule) > 0 {
+				var names []string
+				for r := range ev.Coverage.ByRule {
+					names = append(names, r)
+				}
+				sortStrings(names)
+				m.Decided += "  Rules evaluated on every run (each a necessary condition of the property, with its mutation control; see DESIGN.md §9.1 and evidence/" + m.ID + ".json): " + strings.Join(names, ", ") + "."
+			}
+		}
 		out = append(out, chk{
 			PropertyID: m.ID,
 			Quick:      "bin/vcheck -prop " + m.ID + " -tier quick",
